@@ -681,6 +681,79 @@ theorem strided_conv_misaligned_witness :
     TfliteRef.convAcc 2 3 (2 * 2) (foldedIfm 2 2 ifm) 1 2 (foldedFilter 2 2 0 3 wgt) 1 2 1 1 0 1 (-1) 1 1 := by
   decide
 
+/-! ## 7. Dilation above 2 in software (`fixup_dilation_gt2`) -/
+
+/-- **A convolution with dilation `hw * sc` is the convolution with hardware dilation `hw` over the stretched kernel**
+    (`sparseFilter`: size `(k - 1) * sc + 1`, the original taps at the multiples of `sc`, neutral taps between them), for every
+    position, stride, padding and both axes independently. "Neutral" means zero-point-corrected value 0, i.e. the *raw*
+    inserted value must be the zero point of the weights — the unrepaired code inserts raw 0 (known finding
+    `software-dilation:inserted-taps-zero-instead-of-weight-zero-point`, patch C01-19). -/
+theorem dilation_fold_eq (H W C kh kw sch scw hwh hww : Nat) (hkh : 0 < kh) (hkw : 0 < kw) (hsch : 0 < sch) (hscw : 0 < scw)
+    (ifm wgt : Nat → Nat → Nat → Int) (sy sx pt pl : Nat) (inOff : Int) (oy ox : Nat) :
+    convAcc H W C ifm kh kw wgt sy sx (hwh * sch) (hww * scw) pt pl inOff oy ox =
+    convAcc H W C ifm ((kh - 1) * sch + 1) ((kw - 1) * scw + 1) (sparseFilter sch scw wgt) sy sx hwh hww pt pl inOff oy ox := by
+  unfold convAcc
+  have inner : ∀ ky', (sumRange ((kw - 1) * scw + 1) fun kx' =>
+      if 0 ≤ ((oy * sy + ky' * hwh : Nat) : Int) - (pt : Int) ∧ ((oy * sy + ky' * hwh : Nat) : Int) - (pt : Int) < (H : Int) ∧
+         0 ≤ ((ox * sx + kx' * hww : Nat) : Int) - (pl : Int) ∧ ((ox * sx + kx' * hww : Nat) : Int) - (pl : Int) < (W : Int)
+      then sumRange C fun ic => (ifm (((oy * sy + ky' * hwh : Nat) : Int) - (pt : Int)).toNat (((ox * sx + kx' * hww : Nat) : Int) - (pl : Int)).toNat ic + inOff) *
+        sparseFilter sch scw wgt ky' kx' ic
+      else 0) =
+      sumRange kw fun kx =>
+        if 0 ≤ ((oy * sy + ky' * hwh : Nat) : Int) - (pt : Int) ∧ ((oy * sy + ky' * hwh : Nat) : Int) - (pt : Int) < (H : Int) ∧
+           0 ≤ ((ox * sx + kx * scw * hww : Nat) : Int) - (pl : Int) ∧ ((ox * sx + kx * scw * hww : Nat) : Int) - (pl : Int) < (W : Int)
+        then sumRange C fun ic => (ifm (((oy * sy + ky' * hwh : Nat) : Int) - (pt : Int)).toNat (((ox * sx + kx * scw * hww : Nat) : Int) - (pl : Int)).toNat ic + inOff) *
+          sparseFilter sch scw wgt ky' (kx * scw) ic
+        else 0 := by
+    intro ky'
+    apply sumRange_sparse kw scw hkw hscw
+    intro k hk
+    split
+    · have : ∀ ic, sparseFilter sch scw wgt ky' k ic = 0 := by
+        intro ic; unfold sparseFilter; rw [if_neg (fun c => hk c.2)]
+      simp only [this, Int.mul_zero]
+      exact sumRange_zero_fn C
+    · rfl
+  simp only [inner]
+  rw [sumRange_sparse kh sch hkh hsch _ (by
+    intro k hk
+    apply sumRange_zero_of
+    intro kx _
+    split
+    · have : ∀ ic, sparseFilter sch scw wgt k (kx * scw) ic = 0 := by
+        intro ic; unfold sparseFilter; rw [if_neg (fun c => hk c.1)]
+      simp only [this, Int.mul_zero]
+      exact sumRange_zero_fn C
+    · rfl)]
+  apply sumRange_congr; intro ky _
+  apply sumRange_congr; intro kx _
+  have e1 : ky * sch * hwh = ky * (hwh * sch) := by rw [Nat.mul_assoc, Nat.mul_comm sch hwh]
+  have e2 : kx * scw * hww = kx * (hww * scw) := by rw [Nat.mul_assoc, Nat.mul_comm scw hww]
+  have e3 : ∀ ic, sparseFilter sch scw wgt (ky * sch) (kx * scw) ic = wgt ky kx ic := by
+    intro ic
+    unfold sparseFilter
+    rw [if_pos ⟨Nat.mul_mod_left ky sch, Nat.mul_mod_left kx scw⟩, Nat.mul_div_cancel _ hsch, Nat.mul_div_cancel _ hscw]
+  simp only [e1, e2, e3]
+
+example :
+    let ifm : Nat → Nat → Nat → Int := fun y x c => (y * 7 + x * 3 + c : Nat)
+    let wgt : Nat → Nat → Nat → Int := fun ky kx c => (ky : Int) - 2 * kx + c
+    (List.range 3).map (fun ox => TfliteRef.convAcc 9 9 2 ifm 2 3 wgt 1 1 (1 * 3) (2 * 2) 1 2 (-1) 1 ox) =
+    (List.range 3).map (fun ox => TfliteRef.convAcc 9 9 2 ifm ((2 - 1) * 3 + 1) ((3 - 1) * 2 + 1) (sparseFilter 3 2 wgt) 1 1 1 2 1 2 (-1) 1 ox) := by
+  decide
+example : fixupDilation 3 3 3 4 = some ⟨1, 2, 3, 2, 7, 5⟩ ∧ fixupDilation 3 3 2 1 = none := by decide
+/-- the hardware dilation times the stretch is the original dilation (so `dilation_fold_eq` applies to what the model returns) -/
+theorem fixupDilation_factors (kw kh dw dh : Nat) (o : DilationOut) (hw0 : 0 < dw) (hh0 : 0 < dh)
+    (h : fixupDilation kw kh dw dh = some o) :
+    o.hwW * o.scW = dw ∧ o.hwH * o.scH = dh ∧ 0 < o.scW ∧ 0 < o.scH ∧
+    o.kw = (kw - 1) * o.scW + 1 ∧ o.kh = (kh - 1) * o.scH + 1 := by
+  unfold fixupDilation at h
+  split at h
+  · cases h
+    simp only []
+    refine ⟨?_, ?_, ?_, ?_, ?_, ?_⟩ <;> first | trivial | (split <;> omega)
+  · cases h
+
 /-! ## 5. Depthwise convolution with one input channel -/
 
 -- (theorem `dw_depth1_eq_conv` is stated in section 2, where it is first used)
